@@ -1,7 +1,9 @@
 (* C13 — filestore requests act as CFDP defines, once, in order, reported truthfully.
    This file contains only the pinned statements (filestore level: process_request
-   and the fail-the-rest loop; the transaction-level clauses are not covered here). *)
+   and the fail-the-rest loop; transaction level: the loop of finalize_receive over an abstract
+   filestore, and "once": requests and responses are frozen when the data phase is left). *)
 From CFDP Require Import Base.Prelude Model.Path Model.FsModel Proofs.PathP Proofs.FsModelP.
+From CFDP Require Import Model.Timer Model.TxTypes Model.Recv Model.Send Model.TxInst Proofs.RecvP Proofs.RecvRun.
 
 (* every request, on every tree: the status reported is the one the declarative
    table [spec_status] assigns to the current tree (success exactly when the
@@ -114,6 +116,69 @@ Proof.
   - vm_compute. repeat split.
 Qed.
 
+(* ---- transaction level (Model/Recv.v, over ANY filestore [fs_exec]) ---- *)
+(* finalize_receive's loop: the requests are executed left to right, each on the filestore the
+   previous one left, up to and including the first whose response is a failure; every later
+   request is reported not-performed and does not touch the filestore; one response per request *)
+Theorem C13_tx_loop_shape : forall FS fs_exec resp_fail not_performed (fs : FS) reqs,
+  let '(fs', done, rest) := exec_prefix FS fs_exec resp_fail fs reqs in
+  run_requests FS fs_exec resp_fail not_performed fs false reqs = (fs', done ++ map not_performed rest) /\
+  length (snd (run_requests FS fs_exec resp_fail not_performed fs false reqs)) = length reqs.
+Proof.
+  intros FS fs_exec resp_fail not_performed fs reqs.
+  pose proof (run_requests_spec FS fs_exec resp_fail not_performed fs reqs) as H.
+  destruct (exec_prefix FS fs_exec resp_fail fs reqs) as [[fs' dn] rest]. split; [exact H|].
+  apply run_requests_length.
+Qed.
+
+Example C13_tx_nonvacuous :
+  run_requests (list bytes) (fun fs r => (r :: fs, r)) (fun rep => is_nil rep) (fun r => [255]) [] false [[1]; []; [3]]
+  = ([[]; [1]], [[1]; []; [255]]).
+Proof. vm_compute. reflexivity. Qed.
+
+(* the step that runs them: responses to the user (Finished indication) = responses stored for
+   the Finished PDU = what the loop returned; the filestore is the one the loop left *)
+Theorem C13_tx_same_responses_everywhere : forall FS fs_exec resp_fail not_performed (s : rstate FS),
+  let s' := fr_requests FS fs_exec resp_fail not_performed s in
+  let '(fs', resps) := run_requests FS fs_exec resp_fail not_performed (r_fs s) false (meta_reqs s) in
+  r_fs s' = fs' /\ r_resps s' = resps /\
+  (exists rep fst_ dc, r_out s' = OInd (IFinished rep fst_ dc resps) :: r_out s) /\
+  forall fl, exists f, r_fin (prepare_finished fl s') = Some (f, true) /\ fin_resps f = resps.
+Proof.
+  intros FS fs_exec resp_fail not_performed s. cbn zeta. unfold fr_requests.
+  destruct (run_requests FS fs_exec resp_fail not_performed (r_fs s) false (meta_reqs s)) as [fs' resps].
+  cbn. splits; auto.
+  - eexists; eexists; eexists; reflexivity.
+  - intros fl. eexists. split; reflexivity.
+Qed.
+
+(* once: when the receive-data phase has been left, no operation sequence executes a request
+   (filestore unchanged, C04) or changes the recorded responses *)
+Theorem C13_tx_once : forall FS fs_write_file fs_exec resp_fail not_performed cksum resp_len req_len
+  ops (s : rstate FS), r_phase s <> RecvData ->
+  r_resps (rrun fs_write_file fs_exec resp_fail not_performed cksum resp_len req_len ops s) = r_resps s /\
+  r_fs (rrun fs_write_file fs_exec resp_fail not_performed cksum resp_len req_len ops s) = r_fs s.
+Proof.
+  intros. split; [apply resps_frozen_run; assumption|]. apply frozen_run. assumption.
+Qed.
+
+(* the sending user: a Finished PDU handed to the send transaction (acknowledged mode, or
+   unacknowledged with closure) produces a Finished indication carrying exactly the PDU's responses *)
+Theorem C13_tx_sender_shows_responses : forall now f (s : sstate),
+  cfg_mode (s_cfg s) = Acked \/ md_closure (s_meta s) = true ->
+  exists rep fst_ dc, In (OInd (IFinished rep fst_ dc (fin_resps f))) (s_out (fst (s_process_pdu now (PFinished f) s))).
+Proof.
+  intros now f s H. unfold s_process_pdu.
+  set (s0 := if sphase_eqb (s_phase s) SendEof && negb (ssuspended s) then supd_inact (c_reset now) s else s).
+  assert (E : cfg_mode (s_cfg s0) = cfg_mode (s_cfg s) /\ md_closure (s_meta s0) = md_closure (s_meta s))
+    by (unfold s0; destruct (_ && _); cbn; auto).
+  destruct E as (E1 & E2). clearbody s0. rewrite <- E1, <- E2 in H.
+  destruct (cfg_mode (s_cfg s0)) eqn:Em; cbn [fst].
+  - eexists; eexists; eexists. cbn. left. reflexivity.
+  - destruct H as [H|H]; [discriminate|]. rewrite H. cbn [fst].
+    eexists; eexists; eexists. cbn. left. reflexivity.
+Qed.
+
 Check C13_request_refines_spec : forall root t r,
   (exists ns, components root = Root :: map Normal ns) ->
   exists p p2 rep t',
@@ -146,3 +211,7 @@ Print Assumptions C13_all_executed_without_failure.
 Print Assumptions C13_cases_exhaustive.
 Print Assumptions C13_loop_total.
 Print Assumptions C13_tree_stays_tree.
+Print Assumptions C13_tx_loop_shape.
+Print Assumptions C13_tx_same_responses_everywhere.
+Print Assumptions C13_tx_once.
+Print Assumptions C13_tx_sender_shows_responses.
